@@ -101,7 +101,53 @@ def priority(ctx: Ctx, names: List[str], c: Optional[Counter] = None) -> Counter
     return c
 
 
-def _dfs(ctx: Ctx, roots: List[List[int]], seen: set, c: Counter, max_execs: Optional[int] = None,
+class LocalSeen:
+    def __init__(self):
+        self.s = set()
+
+    def check_add(self, k) -> bool:
+        """True if k was already there; otherwise adds it."""
+        if k in self.s:
+            return True
+        self.s.add(k)
+        return False
+
+    def __len__(self):
+        return len(self.s)
+
+
+class SharedSeen:
+    """Set of 64-bit state hashes shared by the forked workers: open addressing in a shared array.  Two workers may insert the same
+    key at the same moment and both go on to explore it (duplicated work, never lost coverage); aligned 8-byte stores are atomic on
+    the platforms this runs on."""
+
+    def __init__(self, bits: int = 23):
+        import multiprocessing as mp
+        self.n = 1 << bits
+        self.mask = self.n - 1
+        self.a = mp.RawArray('Q', self.n)
+        self.count = mp.RawValue('q', 0)
+
+    def check_add(self, k) -> bool:
+        h = (k & 0xFFFFFFFFFFFFFFFF) or 1
+        i = (h * 0x9E3779B97F4A7C15 >> 17) & self.mask
+        a = self.a
+        for _ in range(self.n):
+            v = a[i]
+            if v == 0:
+                a[i] = h
+                self.count.value += 1          # approximate under races; exact enough for reporting
+                return False
+            if v == h:
+                return True
+            i = (i + 1) & self.mask
+        raise prims.InternalError('shared state table full')
+
+    def __len__(self):
+        return self.count.value
+
+
+def _dfs(ctx: Ctx, roots: List[List[int]], seen, c: Counter, max_execs: Optional[int] = None,
          stop_when_pending: Optional[int] = None) -> List[List[int]]:
     """Depth-first search with re-execution.  Returns the prefixes left unexplored (when stopped early)."""
     stack = list(roots)
@@ -115,10 +161,9 @@ def _dfs(ctx: Ctx, roots: List[List[int]], seen: set, c: Counter, max_execs: Opt
         pending: List[List[int]] = []
 
         def on_point(s: prims.Sched, i: int, enabled):
-            k = s.state_key()
-            if k in seen:
+            if seen.check_add(s.state_key()):
                 raise prims.Cut()
-            seen.add(k)
+            c.inc('new_states')
             c.inc('transitions', len(enabled))
             for alt in range(1, len(enabled)):
                 pending.append(s.choices[:i] + [alt])
@@ -136,28 +181,23 @@ def _dfs(ctx: Ctx, roots: List[List[int]], seen: set, c: Counter, max_execs: Opt
 
 
 def cached(ctx: Ctx, workers: int, max_execs_per_worker: Optional[int] = None, c: Optional[Counter] = None) -> Counter:
-    """Unbounded state-cached search.  The top of the tree is explored breadth-first in this process until enough
-    open prefixes exist; those are then explored depth-first in parallel, each worker starting from a copy of the
-    `seen` set built so far (some duplicated work between workers, no loss of coverage)."""
+    """Unbounded state-cached search.  The top of the tree is explored breadth-first in this process until enough open prefixes
+    exist; those are then explored depth-first by the worker pool, all workers sharing ONE table of visited states (SharedSeen)."""
     c = c or Counter()
-    seen: set = set()
-    open_prefixes = _dfs(ctx, [[]], seen, c, stop_when_pending=max(1, workers * 6) if workers > 1 else None)
-    c.inc('states_top', len(seen))
-    if not open_prefixes:
-        c.inc('states', len(seen))
+    seen = SharedSeen() if workers > 1 else LocalSeen()
+    open_prefixes = _dfs(ctx, [[]], seen, c, stop_when_pending=max(1, workers * 8) if workers > 1 else None, max_execs=max_execs_per_worker if workers <= 1 else None)
+    if not open_prefixes or workers <= 1:
+        c.inc('unexplored_prefixes', len(open_prefixes))
+        c.n['states'] = c.n.pop('new_states', 0)
         return c
-    chunks: Dict[int, List[List[int]]] = {}
-    for i, p in enumerate(open_prefixes):
-        chunks.setdefault(i % workers, []).append(p)
 
     def work(roots):
         cc = Counter()
-        mine = set(seen)
-        left = _dfs(ctx, roots, mine, cc, max_execs=max_execs_per_worker)
-        cc.inc('states', len(mine) - len(seen))
+        left = _dfs(ctx, roots, seen, cc, max_execs=max_execs_per_worker)
         cc.inc('unexplored_prefixes', len(left))
         return cc
-    for cc in pmap(work, list(chunks.values()), workers):
+    # many small chunks: the pool hands a new one to whichever worker becomes free
+    for cc in pmap(work, [[p] for p in open_prefixes], workers):
         c.merge(cc)
-    c.inc('states', len(seen))
+    c.n['states'] = c.n.pop('new_states', 0)
     return c
